@@ -197,23 +197,18 @@ func (fs *ReaderFS) readProcessFile(
 	}
 
 	if info.IsDir() {
-		// assume dir does not exist yet, then chmod if it does exist
-		wg.Add(1)
-		go func() { // continue prepping dir in the background
-			defer wg.Done()
-			err := fs.unarchiveFS.Mkdir(p, info.Mode())
-			if err != nil {
-				if !errors.Is(err, hackpadfs.ErrExist) {
-					errs <- fserrors.WithMessage(err, "copying dir")
-					return
-				}
-				err = fs.unarchiveFS.Chmod(p, info.Mode())
-				if err != nil {
-					errs <- fserrors.WithMessage(err, "copying dir")
-					return
-				}
+		// assume dir does not exist yet, then chmod if it does exist.
+		// This runs in the foreground: in the background it raced with the MkdirAll(.., 0700) of entries below this directory, which could win and leave 0700 behind.
+		err := fs.unarchiveFS.Mkdir(p, info.Mode())
+		if err != nil {
+			if !errors.Is(err, hackpadfs.ErrExist) {
+				return fserrors.WithMessage(err, "copying dir")
 			}
-		}()
+			err = fs.unarchiveFS.Chmod(p, info.Mode())
+			if err != nil {
+				return fserrors.WithMessage(err, "copying dir")
+			}
+		}
 		return nil
 	}
 
